@@ -586,7 +586,7 @@ def eval_uniquify(spec, drv):
         if not go:
             break
         if ops is None:
-            ops = H.gen_ops(hrng, nl, str(rno))
+            ops = H.gen_ops(hrng, nl, str(rno), U.MOD_NAME_UID)
         done = H.apply_ops(nl, ops, str(rno))
         applied.append({"edits": done})
         if H.live_unfold_size(nl, MAX_UNFOLD) is None:
@@ -622,7 +622,7 @@ def eval_flatten(spec, drv):
             U.uniquify(nl)
             for rno, ops in enumerate(rounds, 1):
                 if ops is None:
-                    ops = H.gen_ops(hrng, nl, str(rno))
+                    ops = H.gen_ops(hrng, nl, str(rno), U.MOD_NAME_UID)
                 applied.append({"edits": H.apply_ops(nl, ops, str(rno))})
                 if H.live_unfold_size(nl, MAX_UNFOLD) is None:
                     R.skipped = "history-too-large-or-cyclic"
